@@ -17,11 +17,14 @@ def project(sc, r):
     def tr(tp):
         return out.setdefault(tp, [])
 
+    counters = {}
+
     def inc_id(tp, c, g):
-        key = (tp, c, g)
-        if key not in incs:
-            incs[key] = len([k for k in incs if k[0] == tp])
-        return incs[key]
+        # every adoption is a new incarnation (a member may adopt the same generation twice after
+        # a failed SyncGroup); commits of (client, generation) belong to the latest one
+        counters[tp] = counters.get(tp, -1) + 1
+        incs[(tp, c, g)] = counters[tp]
+        return counters[tp]
     for t, parts in (sc.get("preload") or {}).items():
         for p, n in parts.items():
             if n:
